@@ -78,6 +78,7 @@ func checkC16(c *Ctx) {
 	c.Floor("id_with_extension", 8)
 	c.Floor("name_with_extension_in_other_case", 5)
 	c.Floor("last_dir_missing", 8)
+	c.Floor("last_dir_also_listed_earlier", 8)
 	c.Floor("auto_mode_last_dir_missing", 5)
 }
 
@@ -115,6 +116,17 @@ func c16Case(cs *Case, auto bool) {
 		must(os.MkdirAll(last, 0o755))
 	case "missing-nested":
 		last = filepath.Join(sandbox, "new", "nested", "last")
+	}
+	if chance(r, 20) {
+		// the last directory is also listed earlier (under this or another spelling):
+		// it is still the last-listed, highest-priority one
+		early := pickStr(r, last, last+"/.", filepath.Join(sandbox, "sibling")+"/../"+filepath.Base(last), last+"//")
+		if lastShape == "missing-nested" {
+			early = pickStr(r, last, last+"/.")
+		}
+		k := r.Intn(len(dirs) + 1)
+		dirs = append(dirs[:k:k], append([]string{early}, dirs[k:]...)...)
+		c.Count("last_dir_also_listed_earlier", 1)
 	}
 	dirs = append(dirs, last)
 	// decoys in parents and siblings
@@ -194,7 +206,7 @@ func c16Case(cs *Case, auto bool) {
 	if transient {
 		idShape = fmt.Sprintf("s%vd%ve%v", strings.Contains(id, "/"), strings.Contains(id, ".."), strings.Contains(id, "."))
 	}
-	c.Distinct(fmt.Sprintf("%s|%s|%s|%d%s|%v", gen, idShape, suffix, ndirs, lastShape, auto))
+	c.Distinct(fmt.Sprintf("%s|%s|%s|%d%s|%v", gen, idShape, suffix, len(dirs), lastShape, auto))
 	if strings.HasPrefix(lastShape, "missing") {
 		c.Count("last_dir_missing", 1)
 		if auto {
